@@ -422,7 +422,7 @@ func (c *kvCase) run(nops int) {
 	if n > 1 {
 		c.st.Count("final_multi_version_merge")
 	}
-	// TraceHistory oracle (implementation only)
+	// TraceHistory: against the Lean walk over the model's versions, plus oracles on the implementation
 	if len(c.handles) > 0 {
 		h := c.handles[len(c.handles)-1]
 		for _, k := range keys {
@@ -438,6 +438,11 @@ func (c *kvCase) run(nops int) {
 				continue
 			}
 			c.st.Count("trace")
+			var tr []string
+			for i := range times {
+				tr = append(tr, fmt.Sprintf("%d:%s", times[i], vals[i]))
+			}
+			c.e.Op(fmt.Sprintf("kv trace %s %s", h.name, k), strings.Join(tr, " "))
 			if len(times) > 1 {
 				c.shapes["trace>1"] = true
 			}
